@@ -23,6 +23,7 @@ def describe (s : State) (t : Nat) (a : Act) (s' : State) : String :=
   | .call => "call"
   | .start _ => "start"
   | .raise => "raise"
+  | .fail => "fail"
   | .wr => s!"wr:{s.nextQ}"
   | .rd => match s.outq t, s.repl with
       | some (q, _), r :: _ => s!"rd:{q}:{r.1}.{r.2}"
@@ -58,6 +59,7 @@ def parseStep (tok : String) : Option (Nat × Act) :=
   | 'c' :: ds => (String.ofList ds).toNat?.map fun t => (t, .call)
   | 'a' :: ds => (String.ofList ds).toNat?.map fun t => (t, .adv)
   | 'e' :: ds => (String.ofList ds).toNat?.map fun t => (t, .raise)
+  | 'f' :: ds => (String.ofList ds).toNat?.map fun t => (t, .fail)
   | 'w' :: ds => (String.ofList ds).toNat?.map fun t => (t, .wr)
   | 'd' :: ds => (String.ofList ds).toNat?.map fun t => (t, .rd)
   | 's' :: ds =>
@@ -150,7 +152,7 @@ def handler : Handler := fun op args =>
       -- optionally: how the child's code is supplied (target | run | runsuper) and whether foreign
       -- wrappers were put on BaseProcess before the import (0 | 1)
       let extra ← optList0
-      if !(extra.all fun w => w == "target" || w == "run" || w == "runsuper" || w == "after" || w == "0" || w == "1") then failure
+      if !(extra.all fun w => w == "target" || w == "run" || w == "runsuper" || w == "after" || w == "failfirst" || w == "0" || w == "1") then failure
       if (m == "fork" || m == "spawn" || m == "forkserver" || m == "mixed") && (h == "default" || h == "ctx") then
         pure "ok overlaps=0"
       else failure) args
